@@ -433,6 +433,12 @@ func (s *Store) Cmp(op Op, a, b *Term) *Term {
 			}
 		}
 	}
+	if op == OpUlt || op == OpUle {
+		// comparisons of non-wrapping products with a constant factor (term_div.go)
+		if t := s.cmpMulConst(op, a, b); t != nil {
+			return t
+		}
+	}
 	if op == OpSlt || op == OpSle {
 		// both known non-negative -> unsigned compare
 		ha, oka := s.maxU(a)
@@ -458,6 +464,15 @@ func (s *Store) maxU(t *Term) (uint64, bool) {
 	switch t.op {
 	case OpConst:
 		return t.c, true
+	case OpBvAdd, OpBvMul:
+		return s.boundU(t, 0) // term_div.go: sum / product of the operand bounds when it cannot wrap
+	case OpExtract:
+		// low bits of a value that already fits
+		if lo := uint16(t.c & 0xffff); lo == 0 && t.args[0].w <= 64 {
+			if m, ok := s.maxU(t.args[0]); ok && m <= mask(t.w) {
+				return m, true
+			}
+		}
 	case OpConcat:
 		if t.args[0].op == OpConst && t.args[0].c == 0 {
 			if m, ok := s.maxU(t.args[1]); ok {
@@ -619,6 +634,17 @@ func (s *Store) Bin(op Op, a, b *Term) *Term {
 		if b.op == OpConst && b.c != 0 && bits.OnesCount64(b.c) == 1 {
 			return s.Bin(OpBvAnd, a, s.Const(w, b.c-1))
 		}
+	}
+	switch op {
+	case OpBvUDiv, OpBvURem, OpBvSDiv, OpBvSRem:
+		// (x*A) div/rem B for constants A, B with B/gcd(A,B) a power of two (term_div.go)
+		if b.op == OpConst && w == 64 {
+			if t := s.divRemConst(op, a, b.c, 0); t != nil {
+				return t
+			}
+		}
+	}
+	switch op {
 	case OpBvAnd:
 		if a.op == OpConst {
 			a, b = b, a
@@ -976,6 +1002,9 @@ func (s *Store) SExt(a *Term, extra uint16) *Term {
 	}
 	// known non-negative
 	if a.op == OpConcat && a.args[0].op == OpConst && a.args[0].c>>(a.args[0].w-1) == 0 {
+		return s.ZExt(a, extra)
+	}
+	if hi, ok := s.maxU(a); ok && a.w <= 64 && hi>>(a.w-1) == 0 {
 		return s.ZExt(a, extra)
 	}
 	return s.mk(OpSExt, a.w+extra, uint64(extra), "", []*Term{a})
